@@ -811,6 +811,95 @@ def calc_unit():
 
 
 # ----------------------------------------------------------------------------------------------------------
+# geostructures/structures.py :: the vertex generators and analytic bounds of GeoCircle, GeoEllipse, GeoRing   (C03, C09)
+#
+# generic over `Num α` like SrcCurved / SrcCalc.  Translated from the text: the sample count (`kwargs.get('k') or default`,
+# the defaults `36`, `math.ceil(36 * a / b)`, `max(math.ceil((amax - amin) / 10), 10)`), the schedule `range(k, -1, -1)`,
+# the angle formulas operation by operation, the loops with their `append`s (structural recursions over the schedule),
+# `_radius_at_angle`, the wedge / full-ring assembly (`[*outer, *inner[::-1], outer[0]]`: `outer[0]` may raise IndexError,
+# the equality theorem shows it does not), the corner / axis destinations of `bounds`.  Declared, not translated:
+# `inverse_haversine_radians` / `_degrees` are the parameters `dest` / `destDeg` (SrcCalc's subject: Props/C03SrcGen
+# instantiates them with the model's `destination rnd R` — equal to the translated calculator by C07Src — and with the
+# un-rounded `destRaw R` the C03 theorems are about); the `**kwargs` binder is the number `k` (0 = absent, both falsy).
+
+def curvedgen_unit():
+    src = py2lean.Source(_repo('structures.py'))
+    kw = ('kwargs', 'KwK')
+    insts = [
+        Inst('GeoCircle.centroid', 'circleCentroid', [('self', 'Circle')], 'C'),
+        Inst('GeoEllipse.centroid', 'ellipseCentroid', [('self', 'Ellipse')], 'C'),
+        Inst('GeoEllipse._radius_at_angle', 'radiusAtAngle', [('self', 'Ellipse'), ('angle', 'N')], 'N'),
+        Inst('GeoCircle.bounding_coords', 'circleRing', [('self', 'Circle')], 'List C', kw=kw),
+        Inst('GeoEllipse.bounding_coords', 'ellipseRing', [('self', 'Ellipse')], 'List C', kw=kw),
+        Inst('GeoRing._draw_bounds', 'ringArcs', [('self', 'Ring')], 'Pair List C', kw=kw),
+        Inst('GeoRing.bounding_coords', 'wedgeRing', [('self', 'Ring')], 'Except List C', kw=kw),
+        Inst('GeoCircle.bounds', 'circleBounds', [('self', 'Circle')], 'Tuple4 N'),
+        Inst('GeoEllipse.bounds', 'ellipseBounds', [('self', 'Ellipse')], 'Tuple4 N'),
+    ]
+    for t in ('Circle', 'Ellipse', 'Ring'):
+        py2lean.LEAN_TYPE.setdefault(t, 'Unit')
+    py2lean.LEAN_TYPE.setdefault('N', 'α')
+    py2lean.LEAN_TYPE.setdefault('C', 'GV.Sphere.Coord α')
+    py2lean.LEAN_TYPE.setdefault('KwK', 'Nat')
+
+    def num(a):
+        if a.typ == 'N':
+            return a.text
+        if a.typ == 'Int':
+            return f'(Num.ofI {a.text})'
+        if a.typ == 'Nat':
+            return f'(Num.ofN {a.text})'
+        raise Unsupported(f'a number of type {a.typ}')
+
+    def fn1(name):
+        def f(tr, args):
+            if len(args) != 1:
+                raise Unsupported(f'math function applied to {len(args)} arguments')
+            return Val(f'({name} {num(args[0])})', 'N')
+        return f
+
+    def ceil(tr, args):
+        if [a.typ for a in args] != ['N']:
+            raise Unsupported('math.ceil of ' + ', '.join(a.typ for a in args))
+        return Val(f'(Num.ceilI {args[0].text})', 'Int')
+
+    def dest(name):
+        def f(tr, args):
+            if len(args) != 3 or args[0].typ != 'C':
+                raise Unsupported(f'{name}(' + ', '.join(a.typ for a in args) + ')')
+            return Val(f'({name} {args[0].text} {num(args[1])} {num(args[2])})', 'C')
+        return f
+
+    def method(tr, recv, attr, args):
+        # `kwargs.get('k')`: the requested sample count (0 when absent)
+        if recv.typ == 'KwK' and attr == 'get' and len(args) == 1 and isinstance(args[0], py2lean.ast.Constant) and args[0].value == 'k':
+            return Val(recv.text, 'Nat')
+        return None
+
+    attr = {('C', 'longitude'): ('{}.1', 'N'), ('C', 'latitude'): ('{}.2', 'N')}
+    for cls in ('Circle', 'Ellipse', 'Ring'):
+        attr[(cls, 'center')] = ('center', 'C')
+    attr.update({('Circle', 'radius'): ('radius', 'N'), ('Ellipse', 'rotation'): ('rotDeg', 'N'),
+                 ('Ellipse', 'semi_major'): ('a', 'N'), ('Ellipse', 'semi_minor'): ('b', 'N'),
+                 ('Ring', 'inner_radius'): ('inner', 'N'), ('Ring', 'outer_radius'): ('outer', 'N'),
+                 ('Ring', 'angle_min'): ('amin', 'N'), ('Ring', 'angle_max'): ('amax', 'N')})
+    return Unit('SrcCurvedGen', src, 'GV.Src.CurvedGen', ['GeoVerif.Model.Sphere', 'GeoVerif.Model.PyPrelude'], insts,
+                {'Circle': 'GeoCircle', 'Ellipse': 'GeoEllipse', 'Ring': 'GeoRing'},
+                header='open GV Num\nvariable {α : Type} [Num α]', attr_types=attr,
+                intrinsics={'math.sin': fn1('Num.sin'), 'math.cos': fn1('Num.cos'), 'math.sqrt': fn1('Num.sqrt'),
+                            'math.radians': fn1('GV.Sphere.radians'), 'math.ceil': ceil,
+                            'inverse_haversine_radians': dest('dest'), 'inverse_haversine_degrees': dest('destDeg')},
+                hooks={'isinstance': lambda typ: None, 'curved_gen': True, 'float_as_int': True, 'method': method,
+                       'prune_loop_params': True, 'local_type': lambda qual, name: 'List C',
+                       'decorators': {'GeoCircle.centroid': ['property'], 'GeoEllipse.centroid': ['property']},
+                       'constants': {'math.pi': ('Num.pi', 'N')}},
+                ctx_params=[('dest', 'GV.Sphere.Coord α → α → α → GV.Sphere.Coord α'),
+                            ('destDeg', 'GV.Sphere.Coord α → α → α → GV.Sphere.Coord α'),
+                            ('center', 'GV.Sphere.Coord α'), ('radius', 'α'), ('a', 'α'), ('b', 'α'),
+                            ('rotDeg', 'α'), ('inner', 'α'), ('outer', 'α'), ('amin', 'α'), ('amax', 'α')])
+
+
+# ----------------------------------------------------------------------------------------------------------
 # geostructures/coordinates.py :: Coordinate.to_dms / from_dms / to_qdms / from_qdms and their local helpers   (C19)
 #
 # a `str` is the list of its characters (`Chars`), a float an exact rational (§3), the receiver the model's `Coord`
@@ -1864,6 +1953,7 @@ UNITS['SrcGeohash'] = geohash_unit
 UNITS['SrcEq'] = eq_unit
 UNITS['SrcSweep'] = sweep_unit
 UNITS['SrcWkt'] = wkt_unit
+UNITS['SrcCurvedGen'] = curvedgen_unit
 
 
 def geojson_unit():
